@@ -81,7 +81,10 @@ Print Assumptions C13_aranges_init_exact.
    A zero-length tuple that begins inside a range is excluded for good reason: the bisect lands
    on it instead of the enclosing range and the answer is None
    (C13_lookup_setwise_refuted below); such tables stay in the domain of
-   C13_aranges_entries_exact. *)
+   C13_aranges_entries_exact.
+   The end b + len is an integer, NOT reduced modulo the address width of the set: begin and
+   length are each below 2^(8*address_size) (tuple_ok), their sum may be exactly 2^32 / 2^64
+   (a range reaching the top of the address space) and its last byte is still contained. *)
 Theorem C13_lookup_iff_contained : forall es a,
   ranges_disjoint es = true ->
   exists r,
@@ -170,7 +173,9 @@ Theorem C13_names_items_distinct : forall le sets,
 Proof. exact names_items_distinct. Qed.
 Print Assumptions C13_names_items_distinct.
 
-(* in general: each name maps to its LAST encoded entry, iteration order is the order of
+(* names are byte strings (list Z): two spellings of one identifier with different UTF-8 bytes
+   (NFC / NFD, ANGSTROM SIGN / A WITH RING) are two names, no Unicode normalisation.
+   in general: each name maps to its LAST encoded entry, iteration order is the order of
    FIRST occurrences, [] raises KeyError exactly for absent names, headers in order *)
 Theorem C13_names_mapping : forall le sets,
   wf_names sets = true ->
@@ -313,6 +318,18 @@ Example C13_ex_aranges :
    cu_offset_at_addr t 0) = Ok (Some 0) /\
   (do t <- aranges_init false (encode_aranges false ex_sets) (zlen (encode_aranges false ex_sets));
    cu_offset_at_addr t 0x17) = Ok (Some 0x80).
+Proof. vm_compute. repeat split; reflexivity. Qed.
+
+(* ranges ending exactly at 2^32 (4-byte set) and 2^64 (8-byte set) contain their last byte *)
+Definition ex_top_sets : list arange_set :=
+  [mk_arange_set 2 0x10 4 [0; 0; 0; 0] [(0xFFFF0000, 0x10000)] [];
+   mk_arange_set 2 0x20 8 [0; 0; 0; 0] [(0xFFFFFFFFFFFFF000, 0x1000)] []].
+Example C13_ex_top_of_address_space :
+  wf_aranges ex_top_sets = true /\ ranges_disjoint (aranges_entries ex_top_sets) = true /\
+  map (fun a => do t <- aranges_init true (encode_aranges true ex_top_sets) (zlen (encode_aranges true ex_top_sets));
+                cu_offset_at_addr t a)
+      [0xFFFEFFFF; 0xFFFF0000; 0xFFFFFFFF; 0x100000000; 0xFFFFFFFFFFFFF000; 0xFFFFFFFFFFFFFFFF] =
+  [Ok None; Ok (Some 0x10); Ok (Some 0x10); Ok None; Ok (Some 0x20); Ok (Some 0x20)].
 Proof. vm_compute. repeat split; reflexivity. Qed.
 
 Definition ex_names : list name_set :=
